@@ -15,7 +15,7 @@ E = {
  "C01": ("For the model: every operator expression is reduced by a proved induction (expr_sound) to one-step soundness of | & ~; "
          "'never hangs' is proved for all inputs (eval_expr_no_fuel: the three unbounded loops cannot exhaust their fuel); the value of every "
          "expression is proved to be a union of cells of the arrangement of the operands' boundaries (C01_cellwise), and | and & of two "
-         "simple polygons in the recombination branch are proved sound (C01_union_sound, C01_intersection_sound). The geometric "
+         "simple polygons in the recombination branch are proved sound (C01_union_sound, C01_intersection_sound, C01_difference_sound). The geometric "
          "heart (recombination bounds the union/intersection) is a named premise (partial). The tie to the code and the property itself "
          "are checked on every run: model vs implementation on generated general-position operands and nested expressions, and an exact "
          "oracle that evaluates membership at one point of every cell of the edge arrangement.", "7 C01"),
